@@ -278,6 +278,12 @@ pub fn check_schedule(
         checked.verdict = Verdict::Skipped(format!("stub runtime: {w}"));
         return checked;
     }
+    if let Stop::Invalid(w) = &out.stop {
+        // an emitted program that is not valid Go has no behaviour to compare; that is C02's
+        // business (not claimed), so it is skipped and counted here
+        checked.verdict = Verdict::Skipped(format!("emitted program is not valid Go: {w}"));
+        return checked;
+    }
     let co = crate::gort::co::Co::new();
     co.m.lock().unwrap().no_block_sleep = true;
     refi::start(rp.clone(), &co);
